@@ -20,6 +20,7 @@ import (
 	"fmt"
 	"os"
 	"runtime/debug"
+	"strings"
 	"sync"
 	"sync/atomic"
 	"syscall"
@@ -182,7 +183,7 @@ func (s *Sched) Go(name string, group int, fn func()) int {
 				if _, ok := e.(abortSentinel); !ok {
 					// a real panic in a task (code under test or harness): recorded, the entry decides what it means
 					s.pmu.Lock()
-					s.Panics = append(s.Panics, fmt.Sprintf("task %s: %v\n%s", name, e, debug.Stack()))
+					s.Panics = append(s.Panics, fmt.Sprintf("task %s: %v\n%s", name, e, cleanStack(debug.Stack())))
 					s.pmu.Unlock()
 				}
 			}
@@ -596,4 +597,28 @@ func HookWait() {
 		return
 	}
 	park(id, kindWait, 0, "wg.wait")
+}
+
+// cleanStack reduces a stack dump to function names and file:line, dropping
+// goroutine numbers, argument words and pc offsets so that the text is the
+// same in every execution of the same schedule.
+func cleanStack(b []byte) string {
+	var out []string
+	for _, line := range strings.Split(string(b), "\n") {
+		switch {
+		case line == "" || strings.HasPrefix(line, "goroutine "):
+			continue
+		case strings.HasPrefix(line, "\t"):
+			if i := strings.LastIndex(line, " +0x"); i >= 0 {
+				line = line[:i]
+			}
+			out = append(out, "  "+strings.TrimSpace(line))
+		default:
+			if i := strings.LastIndex(line, "("); i >= 0 {
+				line = line[:i]
+			}
+			out = append(out, line)
+		}
+	}
+	return strings.Join(out, "\n")
 }
